@@ -8,6 +8,7 @@ package storage
 import (
 	"os"
 	"path"
+	"sync"
 	"time"
 
 	log "github.com/sirupsen/logrus"
@@ -25,6 +26,9 @@ const (
 // Store implements a storage for Bundles together with meta data.
 type Store struct {
 	bh *badgerhold.Store
+
+	// pushMutex serialises Push, which reads a BundleItem, changes it and writes it back.
+	pushMutex sync.Mutex
 
 	badgerDir string
 	bundleDir string
@@ -70,6 +74,9 @@ func (s *Store) Close() error {
 
 // Push a new/received Bundle to the Store.
 func (s *Store) Push(b bpv7.Bundle) error {
+	s.pushMutex.Lock()
+	defer s.pushMutex.Unlock()
+
 	bi := newBundleItem(b, s.bundleDir)
 
 	if biStore, err := s.QueryId(b.ID()); err != nil {
